@@ -84,8 +84,9 @@ func c15Reloads(s *sc) {
 		nBefore := len(in.Sink.Reqs())
 		is := func(_ string, mb []string) bool { return strings.Join(mb, ",") == strings.Join(st.want, ",") }
 		// the group's first flush under this configuration comes group_wait after the (re)start of the dispatcher
-		if len(st.want) == 0 {
-			// ungated: the notification tells that the flush has happened; only then is the API view judged
+		if len(st.want) == 0 && nBefore == 0 {
+			// ungated and never notified so far (afterwards the notification log suppresses repeats for repeat_interval):
+			// the notification must go out; only then is the API view judged
 			sent := func(reqs []Req) bool { return len(reqs) > nBefore }
 			if !in.Sink.WaitFor(t0.Add(gw+slack), sent) {
 				if in.Sink.WaitFor(t0.Add(gw+slack+late), sent) {
